@@ -2,7 +2,7 @@
    sequence driven on the real RtpsStatefulWriter / RtpsStatefulReader, and the
    implementation's observed trace + final reader changes. *)
 From DustDDS Require Export Base.Machine Proto.FragModel.
-From Coq Require Import Uint63.
+From Coq Require Import PrimInt63.
 Open Scope Z_scope.
 
 (* ---------------------------------------------------------------- big data
@@ -12,23 +12,38 @@ Open Scope Z_scope.
    (length, 63-bit FNV-1a digest), which is compared with the digest of the
    model's bytes.  Primitive 63-bit integers are used for that digest only. *)
 
+(* Z <-> int for the small values used here (PrimInt63 only: loading Uint63 costs more than all cases) *)
+Fixpoint int_of_pos (p : positive) : int :=
+  match p with
+  | xH => 1%uint63
+  | xO q => PrimInt63.lsl (int_of_pos q) 1
+  | xI q => PrimInt63.lor (PrimInt63.lsl (int_of_pos q) 1) 1
+  end.
+Definition int_of_Z (z : Z) : int := match z with Zpos p => int_of_pos p | _ => 0%uint63 end.
+Fixpoint Z_of_int_bits (n : nat) (i : int) : Z :=
+  match n with
+  | O => 0
+  | S n' => (if PrimInt63.eqb (PrimInt63.land i 1) 0 then 0 else 1) + 2 * Z_of_int_bits n' (PrimInt63.lsr i 1)
+  end.
+Definition byte_of_int (i : int) : Z := Z_of_int_bits 8 (PrimInt63.land i 255).
+
 Fixpoint patb' (n : nat) (x : int) : bytes :=
   match n with
   | O => []
-  | S n' => Uint63.to_Z (PrimInt63.land (PrimInt63.lsr x 33) 255)
+  | S n' => byte_of_int (PrimInt63.lsr x 33)
             :: patb' n' (PrimInt63.add (PrimInt63.mul x 6364136223846793005) 1442695040888963407)
   end.
-Definition patb (seed len : Z) : bytes := patb' (Z.to_nat len) (Uint63.of_Z seed).
+Definition patb (seed len : Z) : bytes := patb' (Z.to_nat len) (int_of_Z seed).
 
 Definition fnv (b : bytes) : int :=
-  fold_left (fun h x => PrimInt63.mul (PrimInt63.lxor h (Uint63.of_Z x)) 1099511628211) b 1469598103934665603%uint63.
+  fold_left (fun h x => PrimInt63.mul (PrimInt63.lxor h (int_of_Z x)) 1099511628211) b 1469598103934665603%uint63.
 
 Inductive odata : Type := Raw (b : bytes) | Dig (len h : Z).
 
 Definition od_matches (b : bytes) (o : odata) : bool :=
   match o with
   | Raw b' => bytes_eqb b b'
-  | Dig l h => (blen b =? l) && (Uint63.to_Z (fnv b) =? h)
+  | Dig l h => (blen b =? l) && PrimInt63.eqb (fnv b) (int_of_Z h)
   end.
 Definition od_len (o : odata) : Z := match o with Raw b => blen b | Dig l _ => l end.
 
